@@ -105,6 +105,9 @@ class Compiler:
             raise OperationalError(1054, f"Unknown column '{q}.{name}' in 'field list'")
         if allow_alias == 'first' and lname in scope.aliases:
             return scope.aliases[lname]
+        if allow_alias == 'having' and lname in scope.aliases and lname not in getattr(scope, 'group_cols', ()):
+            # HAVING: a GROUP BY column wins, then a select-list alias, then FROM columns (MySQL 8.0 manual 13.2.13 / B.3.4.4)
+            return scope.aliases[lname]
         if ri is not None and lname in ri.vars:
             def f(ctx, lname=lname):
                 return ctx.frame.vars[lname]
